@@ -1,7 +1,7 @@
 //! C01, C02, C03, C04, C20: history arm with different emphasis, budgets and owned oracles.
 
 use crate::harness::{Arm, RunReport, Tier};
-use crate::histarm::{gen_hist_spec, run_hist, shrink_hist, Checks, GenProfile};
+use crate::histarm::{gen_big_hist_spec, gen_hist_spec, run_hist, shrink_hist, Checks, GenProfile};
 use crate::rng::{ChooserSpec, Rng};
 use serde_json::Value;
 
@@ -49,6 +49,10 @@ impl Arm for HistArm {
             // concurrent variant: tombstoning tasks interleaved with a publish and with readers
             return serde_json::json!({"concurrent": crate::props::c13::gen_with_tombstones(rng, tier)});
         }
+        if self.id == "C01" && rng.chance(1, 250) {
+            // "any batch sizes": a history whose batches hold hundreds to thousands of entries
+            return serde_json::to_value(gen_big_hist_spec(rng, Checks { c01: true, every: 1, ..Default::default() })).unwrap();
+        }
         let (prof, checks) = match self.id {
             "C01" => (
                 GenProfile { max_labels: 12, max_epochs: if thorough { 40 } else { 24 }, max_batch: 12, tombstones: false, restarts: true, clock: true },
@@ -83,7 +87,12 @@ impl Arm for HistArm {
             }
             return rep;
         }
-        run_hist(spec, chooser, log, true, &move |c| owns(id, c))
+        let mut rep = run_hist(spec, chooser, log, true, &move |c| owns(id, c));
+        if let Some(n) = spec.get("universe").and_then(|u| u.as_array()).map(|u| u.len()).filter(|n| *n > 100) {
+            rep.probe("large_batch_history");
+            rep.probe(&format!("large_batch_history_labels_ge_{}", if n >= 2048 { 2048 } else if n >= 1024 { 1024 } else if n >= 512 { 512 } else { 128 }));
+        }
+        rep
     }
     fn shrink(&self, spec: &Value) -> Vec<Value> {
         if let Some(c) = spec.get("concurrent") {
@@ -94,7 +103,7 @@ impl Arm for HistArm {
     fn rule(&self) -> String {
         let base = "one case = one seeded publish history (labels from a pool with empty/1-byte/4KiB/prefix-related/non-UTF-8 shapes; values incl. empty=TOMBSTONE, 4KiB, repeated; batches of 0..12 incl. no-op re-submissions, empty batches and batches repeating a label; restarts and clock jumps interleaved) executed on the real Directory over SimDb under a seeded scheduling policy (parallel insertion/preload tasks interleaved at storage-operation granularity, H2 points in a random subset of runs); non-trivial = the history contains at least one update of an existing label and at least one insert of a new label after the first epoch; distinct = distinct operation sequences (hash of the op list)";
         match self.id {
-            "C01" => format!("{base}. Oracle after every publish: returned (epoch, root hash) = model (epoch = number of value-changing publishes; hash = from-scratch canonical trie over fresh/stale leaves with formulas re-implemented on blake3), get_epoch_hash agrees, no-op publishes leave storage byte-identical, duplicate-label batches are refused without effect."),
+            "C01" => format!("{base}; one case in 250 instead has LARGE batches (127 .. 3000 entries: sizes around 2^7 .. 2^11; inserts, then updates + unchanged re-submissions + inserts in one batch, then a small batch). Oracle after every publish: returned (epoch, root hash) = model (epoch = number of value-changing publishes; hash = from-scratch canonical trie over fresh/stale leaves with formulas re-implemented on blake3), get_epoch_hash agrees, no-op publishes leave storage byte-identical, duplicate-label batches are refused without effect."),
             "C02" => format!("{base}. Oracle at checked epochs: every label of the universe is looked up (proof -> protobuf bytes -> proof -> lookup_verify under the directory's public key against the returned epoch hash); result must equal the model's (value, version, epoch); unpublished labels must fail; batch lookups over seeded subsets (all labels, duplicates, with an unpublished label) must agree per label."),
             "C03" => format!("{base}. Oracle at checked epochs: key_history for every label and Complete, MostRecent(1,2,k-1,k,k+1,1000) through the wire and key_history_verify with the same parameter must equal the model's newest-first slice; unpublished labels must fail."),
             "C04" => format!("{base}. Oracle at checked epochs: audit(s,e) for all pairs (thorough) or adjacent + s=0 + seeded pairs (quick), through the wire and as per-epoch AuditBlobs, must verify with audit_verify against the MODEL's root hashes s..=e; s>=e and e>current must be refused."),
@@ -104,7 +113,7 @@ impl Arm for HistArm {
     fn assumptions(&self) -> Vec<String> {
         vec![
             "blake3 collision resistance; ECVRF (prove, proof->output) trusted as a primitive".into(),
-            "bounds: <= 12 labels, <= 40 epochs, <= 12 entries per batch".into(),
+            "bounds: <= 12 labels, <= 40 epochs, <= 12 entries per batch; in the large-batch cases of C01 <= 3840 labels, 3 epochs, <= 3100 entries per batch".into(),
             "storage stub is record-atomic; no storage faults in this arm".into(),
             "sampling, not proof: a clean batch is evidence for the explored seeds only".into(),
         ]
